@@ -182,6 +182,7 @@ func TestVerif_C03_h1enc(t *testing.T) {
 	r := s.Rand()
 	nMsgs := verifh.N(40, 200)
 	reached := map[string]int{}
+	knownSeen := map[string]int{}
 	failures := 0
 	for i := 0; i < nMsgs && failures < 12; i++ {
 		plain := verifh.RandBytes(r, 1+r.Intn(200), "abcdefgh \n")
@@ -280,6 +281,14 @@ func TestVerif_C03_h1enc(t *testing.T) {
 			}
 			if !ok && class == "" {
 				failures++
+			}
+			if !ok && class != "" {
+				// report a known finding a few times only, so that it cannot crowd out an unknown one
+				knownSeen[class]++
+				if knownSeen[class] > 3 {
+					s.Count("known-not-reported-again:" + class)
+					ok = true
+				}
 			}
 			s.Count("framing:" + framing)
 			s.Count("enc:" + ze.enc)
